@@ -1285,7 +1285,7 @@ type statsDoc struct {
 }
 
 func (w *qWorld) getStats(query string) (*statsDoc, HTTPResp) {
-	resp := httpDo(w.rc, "GET", w.httpAddr, "/stats?format=json"+query, nil, nil, nil, 60*time.Second)
+	resp := httpDo(w.rc, "GET", w.httpAddr, "/stats?format=json&include_mem=false"+query, nil, nil, nil, 60*time.Second)
 	if resp.Err != nil || resp.Status != 200 {
 		return nil, resp
 	}
